@@ -1,5 +1,5 @@
 Require Import ZArith List. Require Extraction. Require Import ExtrOcamlBasic.
 Require Import IW.Lib.CInt IW.SAFE.Buf IW.SAFE.Ptr IW.SAFE.Conv2 IW.SAFE.Unesc IW.SAFE.Num IW.SAFE.Xstr IW.SAFE.Re IW.SAFE.Txt IW.SAFE.Ini IW.SAFE.Str IW.SAFE.Strto IW.SAFE.Jsk IW.SAFE.Repl IW.Gen.Facts.
 Extraction "m.ml" Z.add Z.mul Z.sub Z.div_eucl Z.compare Z.of_nat Z.to_nat Z.opp
-  ptr_current ptr_observe hex2bin_current atoi2_current unesc2 num_current xcreate xcat xunshift xshift xpop xinsert xclone re_query re_query_prior re_size ini_query split uuid_valid csv_query iw_strtoll_current sde_query jparse jdoc_current replace_current fact_strto_clears_errno fact_json_rejects_rootless fact_replace_skips_empty_key
+  ptr_current ptr_observe hex2bin_current atoi2_current unesc2 num_current xcreate xcat xunshift xshift xpop xinsert xclone re_query re_query_prior re_size re_refused ini_query split uuid_valid csv_query iw_strtoll_current sde_query jparse jdoc_current replace_current fact_strto_clears_errno fact_json_rejects_rootless fact_replace_skips_empty_key
   fact_ptr_tilde_strict fact_hex2bin_checks_max fact_atoi2_inf_bounded fact_num_clears_errno fact_num_big_as_double.
